@@ -18,6 +18,7 @@ import NiftyVerif.Lemmas.CgClassicExact
 import NiftyVerif.Lemmas.CgClassicLast
 import NiftyVerif.Lemmas.CgClassicOptimal
 import NiftyVerif.Lemmas.CgClassicKrylov
+import NiftyVerif.Lemmas.CgClassicError
 import NiftyVerif.Lemmas.CgClassicInstances
 import Mathlib.LinearAlgebra.Dimension.Constructions
 
@@ -484,6 +485,46 @@ theorem cg_stochastic_sound (S : Sys V K) (hA : S.Linear) (hP : ∀ v, S.ip v (p
     rw [e] at this
     exact this
 
+/-- **From the verdict to the distance to the solution.**  `A` coercive (`m·⟨v,v⟩ ≤ ⟨v,Av⟩`, `m > 0`; for a matrix: `m` = smallest
+    eigenvalue), `ip` positive semidefinite, `x*` a solution of `A x* = b`.  If CG with
+    `GradientNormController(tol_abs_gradnorm = t, convergence_level ≥ 1)` reports CONVERGED before its iteration limit, the
+    returned position satisfies `m·‖x − x*‖ ≤ t` (squared: `m²⟨e,e⟩ ≤ t²`). -/
+theorem cg_gradnorm_error_bound (S : Sys V K) (hA : S.Linear) (hb : S.Bilinear) (hpos : ∀ v, 0 ≤ S.ip v v)
+    (m : K) (hm : 0 < m) (hco : ∀ v, m * S.ip v v ≤ S.ip v (S.A v))
+    (hP : ∀ v, S.ip v (precond S v) = 0 → v = 0) (t : K) (level : Int) (limit : Option Int) (hl : 1 ≤ level)
+    (nreset : Int) (fuel : Nat) (E : QE V K) (hE : E.Consistent S) (xs : V) (hxs : trueGrad S xs = 0)
+    (h : (cg S (gradNorm (some t) none level limit) nreset fuel E).status = .converged) :
+    (∃ l s1, limit = some l ∧ (cg S (gradNorm (some t) none level limit) nreset fuel E).ctrl = some s1 ∧
+      l ≤ s1.itcount) ∨
+    m * m * S.ip ((cg S (gradNorm (some t) none level limit) nreset fuel E).energy.pos - xs)
+      ((cg S (gradNorm (some t) none level limit) nreset fuel E).energy.pos - xs) ≤ t * t := by
+  have hb' := residual_bounds_error hA hb hpos m hm hco
+    (cg S (gradNorm (some t) none level limit) nreset fuel E).energy.pos xs hxs
+  rcases cg_gradnorm_sound S hA hP (some t) none level limit hl nreset fuel E hE h with h0 | h1 | ⟨t', ht', _, h2⟩ |
+    ⟨t', ht', _⟩
+  · right
+    rw [h0, ip_zero_left hb] at hb'
+    exact le_trans hb' (mul_self_nonneg t)
+  · exact Or.inl h1
+  · right
+    cases ht'
+    exact le_trans hb' h2
+  · cases ht'
+
+/-- The energy gap to the solution is half the squared `A`-norm of the error, so `cg_energy_monotone` says: the `A`-norm of
+    the error decreases strictly from iterate to iterate. -/
+theorem cg_energy_gap_is_error (S : Sys V K) (hS : S.SPD) (x xs : V) (hxs : trueGrad S xs = 0) :
+    trueValue S x - trueValue S xs = S.ip (x - xs) (S.A (x - xs)) / 2 :=
+  energy_gap hS x xs hxs
+
+/-- non-vacuity: `exSys` is coercive with `m = 1` (`2x² + 2xy + 3y² ≥ x² + y²`) and has the solution `(1/5, 3/5)` -/
+example : (∀ v, (1 : ℚ) * exSys.ip v v ≤ exSys.ip v (exSys.A v)) ∧ trueGrad exSys (1 / 5, 3 / 5) = 0 := by
+  constructor
+  · intro v
+    simp only [exSys]
+    nlinarith [mul_self_nonneg (v.1 + v.2), mul_self_nonneg v.2]
+  · simp [trueGrad, exSys]; norm_num
+
 /-- Every step CG takes has a non-negative length; CG reports ERROR only through its give-up exits
     (`curv == 0`, `alpha < 0`, `gamma < 0`) or because the controller raised. -/
 theorem cg_alpha_positive_or_error (S : Sys V K) (hA : S.Linear) (c : Ctrl K τ) (nreset : Int) (fuel : Nat)
@@ -838,6 +879,27 @@ theorem inversion_enabler_solves_stochastic (op : LinOp V) (approx : Option (Lin
   subst hrun
   subst hy
   exact cg_stochastic_sound S hA hP dE level limit memLen hl 20 fuel _ (at_consistent _ _) hconv
+
+/-- **Numerical inversion returns the solution, in terms of the error**: with a coercive operator (constant `m`) in the
+    inverse mode, an exact solution `ys` of `op^{inv} ys = x`, and `GradientNormController(tol_abs_gradnorm = t)`:
+    a CONVERGED inversion that did not stop at the iteration limit returns `y` with `m·‖y − ys‖ ≤ t`. -/
+theorem inversion_enabler_error_bound (op : LinOp V) (approx : Option (LinOp V)) (hcap : op.capability < 16)
+    (ip : V → V → K) (ninfsq : V → K) (t : K) (level : Int) (limit : Option Int) (hl : 1 ≤ level)
+    (fuel : Nat) (x : V) (mode : Nat) (y : V) (run : Out V K K)
+    (h : inversionEnabler op approx (gradNorm (some t) none level limit) ip ninfsq (0 : V) fuel x mode = .solved y run)
+    (hA : (ieSys op approx ip ninfsq x mode).Linear) (hb : (ieSys op approx ip ninfsq x mode).Bilinear)
+    (hpos : ∀ v, 0 ≤ ip v v) (m : K) (hm : 0 < m) (hco : ∀ v, m * ip v v ≤ ip v (op.apply v (ieInvMode mode)))
+    (hP : ∀ v, ip v (precond (ieSys op approx ip ninfsq x mode) v) = 0 → v = 0)
+    (ys : V) (hys : op.apply ys (ieInvMode mode) = x) (hconv : run.status = .converged) :
+    (∃ l s1, limit = some l ∧ run.ctrl = some s1 ∧ l ≤ s1.itcount) ∨ m * m * ip (y - ys) (y - ys) ≤ t * t := by
+  obtain ⟨_, hrun, hy, _⟩ := inversion_enabler_run op approx hcap _ ip ninfsq fuel x mode y run h
+  subst hrun
+  subst hy
+  have hxs : trueGrad (ieSys op approx ip ninfsq x mode) ys = 0 := by
+    show op.apply ys (ieInvMode mode) - x = 0
+    rw [hys]; simp
+  exact cg_gradnorm_error_bound (ieSys op approx ip ninfsq x mode) hA hb hpos m hm hco hP t level limit hl 20 fuel _
+    (at_consistent _ _) ys hxs hconv
 
 /-- non-vacuity (concrete evaluation, one instance): `InversionEnabler(exOp, AbsDeltaEnergyController(deltaE=1/4,
     iteration_limit=10)).inverse_times((1,2))` goes through CG, which reports CONVERGED -/
